@@ -160,6 +160,9 @@ def long_family(ms, full):
         for d in '123456789':
             yield d * m
         yield '1' + '0' * m
+        for per in ('12', '90', '98', '19', '123456789', '9876543210', '142857', '3', '49'):
+            w = (per * (m // len(per) + 2))[:m + 1]
+            yield w if w[0] != '0' else '7' + w[1:]
 
 
 def _w_long(chunk):
@@ -200,7 +203,7 @@ def run(ctx):
     ctx.cov['model_transitions_reachable'] = len(model)
     ctx.cov['model_transitions_exercised_by_inputs_below_1000'] = len(hit)
     ctx.guard('every reachable transducer transition exercised', len(hit) == len(model))
-    ctx.bounds = {'all_numbers_below': top, 'operands': '0..9', 'long_chain_m': 'every m in 1..1300' if not ctx.quick else
+    ctx.bounds = {'all_numbers_below': top, 'operands': '0..9', 'periodic_long_numbers': 'prefixes of 9 periodic digit patterns at every long-chain length', 'long_chain_m': 'every m in 1..1300' if not ctx.quick else
                   'every m in 1..40 with all a,b,d; m in {63..65,127..129,255..257,511,512,1023,1024,1232..1234,1300} with a in 1,5,9 and b in 0,1,5,9'}
     ctx.rule = ('one case = (operation, canonical decimal string, operand digit) compared with Python int arithmetic; all '
                 'strings below the bound and the complete long-chain families a9^mb, a0^mb, d^m, 10^m; non-trivial = '
